@@ -131,6 +131,17 @@ class _Desugar(ast.NodeTransformer):
             subj = node.subject if isinstance(node.subject, ast.Name) else _name(tmp)
             out = [] if isinstance(node.subject, ast.Name) else [ast.Assign(targets=[_name(tmp, ast.Store())], value=node.subject)]
 
+            def binds_names(pt):
+                return any(isinstance(x, (ast.MatchAs, ast.MatchStar)) and x.name for x in ast.walk(pt)) or any(isinstance(x, ast.MatchMapping) and x.rest for x in ast.walk(pt))
+
+            expanded = []
+            for c in node.cases:
+                if isinstance(c.pattern, ast.MatchOr) and binds_names(c.pattern):
+                    # alternatives that bind names: one case per alternative (same guard, same body)
+                    expanded.extend(ast.match_case(pattern=alt, guard=c.guard, body=c.body) for alt in c.pattern.patterns)
+                else:
+                    expanded.append(c)
+
             def chain(cases):
                 if not cases:
                     return []
@@ -148,7 +159,7 @@ class _Desugar(ast.NodeTransformer):
                 stmt = ast.If(test=test, body=body, orelse=rest)
                 ast.copy_location(stmt, c.pattern)
                 return [stmt]
-            out += chain(node.cases)
+            out += chain(expanded)
             if not out:
                 out = [ast.Pass()]
             for st in out:
